@@ -288,6 +288,7 @@ def storeStepNormal (w : World) (toks : List String) : Option (World × String) 
         some (w', withOutcome armed o "ok")
       | none => some ({ w with scan := none, casDropped := false }, "ok")
     else some ({ w with scan := none }, "ok")
+  | ["clonedrop"] => some (w, if w.handle.isSome then "ok" else "err nohandle")
   | ["close_keep_stats"] =>
     match w.scan with
     | some _ => some ({ w with casDropped := true, txs := [] }, "ok")
